@@ -542,9 +542,11 @@ class SAMIWriter(BaseWriter):
                 stylesheet += self._recreate_style_block(
                     attr, value, caption_set.layout_info)
 
+        # paragraphs that keep no class of their own get the language as class:
+        # declare that class, unless a style of exactly that name declares it
+        styles = dict(caption_set.get_styles())
         for lang in caption_set.get_languages():
-            lang_string = f'lang: {lang};'
-            if lang_string not in stylesheet:
+            if styles.get(lang, {}).get('lang') != lang:
                 stylesheet += self._recreate_style_block(
                     lang, {'lang': lang}, caption_set.get_layout_info(lang))
 
